@@ -1,1 +1,114 @@
-/-! Property theorems for C17 (only property-level statements and non-vacuity examples live here). -/
+import SpoxModel.Lemmas.Dispatch
+import SpoxModel.Generated.ResultType
+/-!
+# C17 — overloaded Python operators on Var follow numpy semantics
+-/
+namespace C17
+open Dispatch Generated.ResultType
+
+def binOps : List Op := [.add, .sub, .mul, .truediv, .floordiv]
+def opIndex : Op → Nat
+  | .add => 0 | .sub => 1 | .mul => 2 | .truediv => 3 | .floordiv => 4 | _ => 5
+
+/-- numeric dtypes: 0-10 -/
+def numeric : List Nat := [0, 1, 2, 3, 4, 5, 6, 7, 8, 9, 10]
+
+/-- the operand kinds of the statement (numeric Vars, Python int / float) and more (Python bool,
+    numpy scalars of every numeric dtype) -/
+def operands : List Operand :=
+  numeric.map .var ++ [.pyInt 3, .pyFloat, .pyBool true] ++ numeric.map .npScalar
+
+def Operand.isVar : Operand → Bool
+  | .var _ => true
+  | _ => false
+
+def kindOf (o : Operand) : Nat := o.kind.getD 0
+
+def resultDtype (r : Except Err (Tree × Nat)) : Option Nat :=
+  match r with
+  | .ok (_, d) => some d
+  | .error _ => none
+
+def isErr (r : Except Err (Tree × Nat)) (e : Err) : Bool :=
+  match r with
+  | .ok _ => false
+  | .error e' => e == e'
+
+/-- the dtype numpy itself gives to `a <op> b` (generated table) -/
+def npResult (op : Op) (a b : Operand) : Option Nat :=
+  ((npBinary.getD (opIndex op) []).getD (kindOf a) []).getD (kindOf b) none
+
+theorem result_dtype_matches :
+    ∀ op ∈ binOps, ∀ a ∈ operands, ∀ b ∈ operands, (Operand.isVar a || Operand.isVar b) = true →
+      resultDtype (dispatch info (some (true, true)) op a b) = npResult op a b := by
+  decide +kernel
+
+
+/-- unary minus keeps numpy's element type wherever ONNX defines `Neg` -/
+theorem neg_dtype_matches :
+    ∀ s ∈ [(true, true), (true, false), (false, true), (false, false)], ∀ d ∈ numeric,
+      info.allowed "Neg" d = true →
+        resultDtype (dispatch info (some s) .neg (.var d) .other) = npNeg.getD d none := by
+  decide +kernel
+
+/-! ## Promotion switched off: nothing is converted -/
+
+/-- the expression casts an operand Var -/
+def convertsOperand : Tree → Bool
+  | .arg _ => false
+  | .cast _ (.arg _) => true
+  | .cast _ t => convertsOperand t
+  | .constOf _ _ => false
+  | .zero _ => false
+  | .un _ t => convertsOperand t
+  | .bin _ l r => convertsOperand l || convertsOperand r
+
+def isInt (d : Nat) : Bool := info.integer d
+
+/-- With type promotion off: Vars of different element types raise TypeError; a Python float (or a
+    floating numpy scalar) meeting an integer Var raises TypeError; whatever is accepted keeps the
+    Var's element type and casts no operand. For every operand kind on either side, both settings of
+    constant promotion. -/
+theorem no_promotion_strict :
+    ∀ cp ∈ [true, false], ∀ op ∈ binOps,
+      (∀ da ∈ numeric, ∀ db ∈ numeric, da ≠ db →
+        isErr (dispatch info (some (false, cp)) op (.var da) (.var db)) .typeError = true) ∧
+      (∀ d ∈ numeric, isInt d = true →
+        isErr (dispatch info (some (false, cp)) op (.var d) .pyFloat) .typeError = true ∧
+        isErr (dispatch info (some (false, cp)) op .pyFloat (.var d)) .typeError = true) ∧
+      (∀ d ∈ numeric, ∀ o ∈ operands,
+        (match dispatch info (some (false, cp)) op (.var d) o with
+         | .ok (tree, r) => r == d && !convertsOperand tree && (match o with | .var d' => d' == d | _ => true)
+         | .error e => e == .typeError) = true ∧
+        (match dispatch info (some (false, cp)) op o (.var d) with
+         | .ok (tree, r) => r == d && !convertsOperand tree && (match o with | .var d' => d' == d | _ => true)
+         | .error e => e == .typeError) = true) := by
+  decide +kernel
+
+/-! ## Outside a block -/
+
+/-- **Outside an `operator_overloading` block every operator raises TypeError** — any operator,
+    any operands (any table). -/
+theorem outside_block_typeerror (np : NpInfo) (op : Op) (a b : Operand) :
+    dispatch np none op a b = .error .typeError := rfl
+
+/-! ## Logical operators -/
+
+def logicOps : List Op := [.and_, .or_, .xor]
+
+/-- **`& | ^ ~` on boolean Vars are numpy's logical operators**: the emitted operator applied to
+    0/1 values gives numpy's answer, the result is boolean, in every promotion setting. -/
+theorem logical_matches :
+    ∀ s ∈ [(true, true), (true, false), (false, true), (false, false)], ∀ x ∈ [false, true], ∀ y ∈ [false, true],
+      (∀ op ∈ logicOps,
+        (match dispatch info (some s) op (.var boolDt) (.var boolDt) with
+         | .ok (tree, d) => d == boolDt &&
+             eval info (.var boolDt) (.var boolDt) (b2i x) (b2i y) tree == some (boolDt, b2i (npLogical op x y))
+         | .error _ => false) = true) ∧
+      (match dispatch info (some s) .not_ (.var boolDt) .other with
+       | .ok (tree, d) => d == boolDt &&
+           eval info (.var boolDt) .other (b2i x) 0 tree == some (boolDt, b2i (npLogical .not_ x false))
+       | .error _ => false) = true := by
+  decide +kernel
+
+end C17
